@@ -43,7 +43,7 @@ def Child.nameInParent (c : Child) (nameForChild : Rcn) : Rcn :=
 
 /-- `ChildDetails::issued(rcn)`: the keys in use in that class. -/
 def Child.issuedKeys (c : Child) (rcn : Rcn) : List KeyId :=
-  (c.usedKeys.filter (fun p => p.2 = .inUse rcn)).map (·.1)
+  (keys c.usedKeys).filter fun k => get c.usedKeys k = some (.inUse rcn)
 
 /-- `is_issued` -/
 def Child.isIssued (c : Child) (k : KeyId) : Bool :=
